@@ -10,6 +10,8 @@ INVARIANT PushedOnlyValid
 INVARIANT RefusedIsNoop
 INVARIANT HandOffKeeps
 INVARIANT CommitmentPreserved
+INVARIANT OfflineSignerSuffices
+PROPERTY FundAgrees
 PROPERTY PushedStable
 PROPERTY SigningOnlyAdds
 CHECK_DEADLOCK FALSE
